@@ -13,57 +13,93 @@ S_NOTE = ("Trusted: z3 5.1.0 / cvc5 / z3 4.8.12, rustc, nalgebra, sprs, num-bigi
           "thread schedules are not explored. Shapes/flags/strategies are enumerated configurations; entries are symbolic inside the stated box. "
           "'exhaustive' in the evidence means the path tree of a configuration is complete (every branch flip explored or unsat), a bounded claim. ")
 
+KH_NOTE = ("Diagrams, move histories and the crossing order are enumerated configurations (catalogue: kinks, Hopf, trefoil, figure-8, trefoil+kink, "
+           "5_1..6_3, L4a1, L5a1 and their mirrors; moves: R1 x4 variants, renumbering, reordering, orientation reversal, braid relations, conjugation, "
+           "Markov stabilisation, far commutation); what is symbolic is the pair (h,t) (resp. h, or the prime c) inside the stated box. Hash-iteration order of the "
+           "builder makes control flow nondeterministic: runs that do not reproduce their expected path prefix are counted as divergences and void the "
+           "'exhaustive' flag of that configuration (assumption A5). F2/F3 and polynomial coefficient rings are concrete types: they are executed at the class's residues only. ")
+
 CHECKS = {
+ "C01": dict(engine="S", category="model_checking",
+   technique="concolic symbolic execution of KhComplex::new (v2 tangle/cobordism builder) + ChainReducer + HomologyCalc over a symbolic integer scalar and over Ratio of it, with symbolic (h,t); per path class the reported rank/torsion is compared (z3) with an independent cube-of-resolutions reference complex reduced by a reference Smith form under the same path; kernel obligation: closed dotted genus-g surfaces evaluate to eps((2X-h)^g X^x (X-h)^y)",
+   text="For each catalogue diagram (and mirror, reduced/unreduced, Z and Q) the whole engine runs once per path class of (h,t); the class's obligations (equal free rank, pairwise associate torsion factors in every degree) are discharged by unsat answers. The reference is ~250 lines independent of yui-link/yui-kh (own orientation walk, own circle counting, own Frobenius algebra maps, own sign rule).",
+   note=S_NOTE + KH_NOTE, design="5/C01"),
+ "C02": dict(engine="S", category="model_checking",
+   technique="concolic symbolic execution of KhHomology::new on pairs of diagrams of the same link with the same symbolic (h,t): per path class the two results must be isomorphic (z3); mirror pairs: free part i <-> -i, torsion i <-> 1-i, and the bigraded statement on the class h=t=0",
+   text="Pairs come from diagram moves implemented in the harness on PD codes / braid words; the solver decides (h,t); the move history is sampled (seeded), length <= 2.",
+   note=S_NOTE + KH_NOTE, design="5/C02"),
+ "C03": dict(engine="S", category="model_checking",
+   technique="concolic symbolic execution of KhHomology over Z and over Q with the same symbolic (h,t); F2 and F3 runs at the class's residues (h mod 6, t mod 6 pinned by a recorded concretisation); universal-coefficient identities checked per class; on the class h=t=0 the two bigraded routes and the F2 reduced/unreduced relation",
+   text="rank_Q = free rank_Z; dim_Fp(i) = rank(i) + #p-torsion(i) + #p-torsion(i+1) for p = 2, 3 at every (h,t) of the box (general (h,t) produce 2-, 3- and 9-torsion that h=t=0 does not).",
+   note=S_NOTE + KH_NOTE + "Outside: coprime torsion in one degree, i128/BigInt machine instantiations.", design="5/C03"),
+ "C05": dict(engine="S", category="model_checking",
+   technique="concolic symbolic execution of KhComplex::new with UNBOUNDED symbolic (h,t): every entry of d_{i+1} d_i is a polynomial in (h,t) that must vanish on the class (syntactic identity or z3); generators sit in their homological degree",
+   text="Part (a) of the property (d∘d=0, d raises h-degree by one) over Z for all integers (h,t) per explored class. Parts (b) q-homogeneity with deg h=-2, deg t=-4 and (c) specialisation from Z[H,T] are NOT covered (no symbolic polynomial-ring run was built).",
+   note=S_NOTE + KH_NOTE, design="5/C05"),
+ "C06": dict(engine="S", category="model_checking",
+   technique="concolic symbolic execution of canon_cycles / KhHomology / ss_invariant with symbolic h (t=0) resp. symbolic prime c in {2,3,5,7} (solver-side primality constraint): cycles of degree 0, non-torsion classes for h != 0 (z3), Lee rank 2^components, ss equal across diagram pairs and reduced/unreduced, negated by mirror, crossing-change inequality",
+   text="ss(K-) <= ss(K+) <= ss(K-)+2 is checked for every crossing of every catalogue knot, the crossing switch being done on the PD code in the harness.",
+   note=S_NOTE + KH_NOTE + "Outside: c = H over F2[H]/F3[H]/Q[H] (concrete types), knots > 6 crossings.", design="5/C06"),
  "C07": dict(engine="S", category="model_checking",
-   technique="concolic symbolic execution of HomologyCalc (generic code instantiated with a symbolic integer scalar, also Z[i], Z[omega]); path classes discharged by z3 (SMT, NIA) under the solver-side precondition d2*d1=0; reference rank/torsion from minors and gcds of minors",
+   technique="concolic symbolic execution of HomologyCalc (generic code instantiated with a symbolic integer scalar, also Z[i], Z[omega], Q) ; path classes discharged by z3 (SMT, NIA) under the solver-side precondition d2*d1=0; reference rank/torsion from minors and gcds of minors",
    text="All entries of (d1,d2) are symbolic within a box and constrained by d2*d1=0 in the solver; every path class of HomologyCalc::calculate is run once on a solver-chosen member and its obligations (rank formula, torsion ~ gcd-of-minors factors, generators are cycles, boundaries map to 0 modulo torsion orders, coordinates of generators are the standard basis) are proven for the whole class by an unsat answer. Small shapes are explored to a complete path tree.",
-   note=S_NOTE + "Outside: F_p, Q[x], F_p[x] (concrete types), Q (no symbolic rational scalar), machine-width effects, middle dimension > 3.",
+   note=S_NOTE + "Outside: F_p, Q[x], F_p[x] (concrete types), machine-width effects, middle dimension > 3.",
    design="5/C07"),
  "C08": dict(engine="S", category="model_checking",
    technique="concolic symbolic execution of ChainReducer (reduce_all shallow+deep, reduce_at_spec for all 8 pivot strategies, tracked vectors) over a symbolic integer scalar; identities f d = d' f, d b = b d', f b = I, d'd' = 0 and homology preservation discharged per path class by z3",
    text="Complexes of length 2-4 with symbolic entries in [-2,2] (units, zero and non-units all occur) under the solver-side constraint d∘d=0; each path class's chain-map / identity / homology-preservation obligations are proven by unsat answers.",
-   note=S_NOTE + "Single worker schedule only: 'for every thread schedule' is NOT decided. |x| of unit candidates is concretised by c_weight (classes split per value). Outside: Q, F_p, Z[H].",
+   note=S_NOTE + "Single worker schedule only: 'for every thread schedule' is NOT decided. |x| of unit candidates is concretised by c_weight (classes split per value). Outside: F_p.",
    design="5/C08"),
  "C09": dict(engine="S", category="model_checking",
-   technique="concolic symbolic execution of snf (generic elimination path) over symbolic Z, Z[i], Z[omega] entries; certificates D=PAQ, PP^-1=I, QQ^-1=I, A=P^-1 D Q^-1, diagonal/normalised/divisibility chain discharged per path class by z3 (NIA with division lemmas)",
-   text="Every entry symbolic within a box; shapes up to 3x3 (quick <= 2x3), all-transform flags plus flag subsets. By uniqueness of the Smith form the certificates determine D up to units. The f64-free exact div_round kernel the quadratic rings depend on is decided separately at machine width by Kani (C15).",
-   note=S_NOTE + "Outside: entries beyond the box, shapes beyond 3x3, F_p, Q, polynomial rings. The LLL-preprocessed path (TypeId dispatch) is reached through hook H1 only in the lll variants.",
+   technique="concolic symbolic execution of snf (generic elimination path) over symbolic Z, Z[i], Z[omega], Q entries; certificates D=PAQ, PP^-1=I, QQ^-1=I, A=P^-1 D Q^-1, diagonal/normalised/divisibility chain discharged per path class by z3 (NIA with division lemmas)",
+   text="Every entry symbolic within a box; shapes up to 3x3, all-transform flags plus flag subsets, diagonal-input configurations for the divisibility-chain normalisation. By uniqueness of the Smith form the certificates determine D up to units. The exact div_round kernel the quadratic rings depend on is decided separately at machine width by Kani (C15).",
+   note=S_NOTE + "Outside: entries beyond the box, shapes beyond 3x3 (4x4 diagonal in thorough), F_p, polynomial rings. The LLL-preprocessed path (TypeId dispatch for i64/BigInt/...) is executed only in the BigInt replay of counterexamples, not symbolically.",
    design="5/C09"),
  "C10": dict(engine="S", category="model_checking",
    technique="concolic symbolic execution of lll_hnf and lll over symbolic Z, Z[i], Z[omega] entries; H=PA, PP^-1=I, echelon form, normalised pivots, norm bound above pivots; LLL: B=PA, det P unit, size-reduced and Lovasz in fraction-free Gram form; discharged per path class by z3",
    text="Rows independent (Gram determinant != 0) is a solver-side precondition for lll. Shapes up to 3x2/2x3 quick.",
-   note=S_NOTE + "Many LLL configurations stop on the time budget (high-degree NIA): evidence says which are complete. Outside: entries beyond the box (reduced to C15's kernel), m > 3.",
+   note=S_NOTE + "Many LLL configurations stop on the time budget (high-degree NIA): evidence says which are complete. Outside: entries beyond the box (reduced to C15's kernel), m > 3 (so LLL defects that need 4 rows are out of reach).",
    design="5/C10"),
  "C11": dict(engine="S", category="model_checking",
    technique="concolic symbolic execution of find_pivots / perms_by_pivots / permute (the real multithread code path on one worker) over symbolic entries: sparsity and unit patterns are decided by the solver; validity of the pivot list discharged per path class by z3",
-   text="SEQUENTIAL SCHEDULE ONLY. Entries symbolic in [-2,2] or [-1,1], shapes up to 3x3 (thorough 3x4), {Rows,Cols} x {One,AnyUnit,Weight(1),Weight(2)}: distinct rows/cols, pivot entries are units, triangular leading block (directly and through perms_by_pivots+permute).",
+   text="SEQUENTIAL SCHEDULE ONLY. Entries symbolic in [-2,2] or [-1,1], shapes up to 3x3 (thorough 3x4), {Rows,Cols} x {One,AnyUnit,Weight(1),Weight(2)}: distinct rows/cols, pivot entries are units, triangular leading block (directly and through perms_by_pivots+permute), no panic.",
    note=S_NOTE + "NOT decided: 'for every interleaving of worker threads' (no schedule-point hook installed; Kani has no threads and cannot pass AHashSet). A fault that needs a foreign commit inside the snapshot-to-write-lock window is invisible to this check.",
    design="5/C11"),
  "C12": dict(engine="S", category="model_checking",
-   technique="concolic symbolic execution of solve_triangular(_left,_vec), inv_triangular, Schur::from_partial_triangular and dir_sum_decomp over symbolic entries (unit diagonal as solver-side precondition u^2=1), with explicitly stored zeros; A X = Y, S = D - C A^-1 B, F M B = S, F B = I, block-sum identity discharged per class by z3",
-   text="Each kernel is called twice per run on the same worker so the thread-local scratch buffer must return to zero (debug assertions are compiled in). Upper and lower, r in 0..3, stored-zero variants.",
-   note=S_NOTE + "Outside: equality across thread counts; unit diagonals other than +-1 (Q, F_p, Z[i]); UnionFind is exercised only through dir_sum_decomp.",
+   technique="concolic symbolic execution of solve_triangular(_left,_vec), inv_triangular, Schur::from_partial_triangular and dir_sum_decomp over symbolic entries in Z, Z[i] and Q (unit diagonal as solver-side precondition), with explicitly stored zeros; A X = Y, S = D - C A^-1 B, F M B = S, F B = I, block-sum identity discharged per class by z3",
+   text="Each kernel is called twice per run on the same worker so the thread-local scratch buffer must return to zero (debug assertions are compiled in). Upper and lower, r in 0..3, stored-zero variants, units other than +-1 through Z[i] and Q.",
+   note=S_NOTE + "Outside: equality across thread counts; matrices beyond 4x4 (a defect that needs a column with >= 16 entries is out of reach); UnionFind is exercised only through dir_sum_decomp.",
    design="5/C12"),
  "C13": dict(engine="S", category="model_checking",
-   technique="concolic symbolic execution of SpMat/SpVec/Mat operations and Trans sequences over unbounded symbolic integer entries (loop-free in the scalars: classes are zero patterns), compared entrywise with a naive Vec<Vec<term>> reference; polynomial identities normalise syntactically, the rest is discharged by z3",
-   text="Entries are unbounded symbolic integers; shapes 0..3, all permutations, all sub-ranges, all split points, stored-zero variants (raw column construction and A-A), Trans built two ways, before and after reduce(), sub().",
+   technique="concolic symbolic execution of SpMat/SpVec/Mat operations and Trans sequences over symbolic integer entries (loop-free in the scalars: classes are zero patterns), compared entrywise with a naive Vec<Vec<term>> reference; polynomial identities normalise syntactically, the rest is discharged by z3",
+   text="Shapes 0..3, all permutations, all sub-ranges, all split points, stored-zero variants (raw column construction and A-A), Trans built two ways, before and after reduce(), sub() with proper, full-length reordered and repeated index lists.",
    note=S_NOTE + "Outside: F_p, Q; dimension > 3; structural equality of CSC storage.",
    design="5/C13"),
- "C14": dict(engine="K", category="model_checking",
-   technique="bounded model checking of the compiled Rust (Kani/CBMC, SAT): FF<3,5,7>, FF2 ring operations in every by-value/by-ref/assign form vs (a op b) mod p on all i32 inputs; Ratio<i32>::new canonical form; Ratio<i64>::cmp vs exact order at full width",
-   text="F_p and F2: all operands (any i32 / i64 input to the constructor), all operator forms. Ratio: canonical representative after new() on bounded operands, order on integers at full 64-bit width and on unit-fraction operands < 2^31.",
-   note="Trusted: Kani, CBMC, cadical. Ratio<i32> +,-,* from two symbolic operands did not finish under Kani and are outside this check's K part. BigInt itself is a dependency.",
+ "C14": dict(engine="K+S", category="model_checking",
+   technique="Kani/CBMC (SAT) on FF<3,5,7>, FF2 (all operator forms, all i32 inputs), Ratio<i32>::new, Ratio<i64>::cmp at full width; concolic symbolic execution + z3 on Ratio over the symbolic integer (ring operations in all forms, canonical form, ==, exact order of Q) and on QuadInt<_,D> ring axioms for D in {-1,-3,2,5,-2}",
+   text="K decides the machine-width kernels; S decides the generic Ratio / QuadInt code over mathematical integers (Ratio: numerators and denominators in a box, QuadInt: box 1000, identities syntactic).",
+   note="Trusted: Kani, CBMC, cadical, z3. Ratio<i32> +,-,* from two symbolic operands did not finish under Kani (decided by S instead). BigInt itself is a dependency.",
    design="5/C14"),
- "C15": dict(engine="K", category="model_checking",
-   technique="bounded model checking of the compiled Rust (Kani/CBMC, SAT): div_round on i32 (10-bit symbolic x symbolic vs the definition; full width vs reference) and i64 (full-width dividend x constant divisors incl. extremes), unit API of i32/i64 incl. MIN, generic gcd/gcdx/lcm of euc_ring.rs instantiated at FF<3>, FF<5>, num-integer gcd/gcdx/lcm bounded",
-   text="One harness per concrete instantiation; unwinding assertions on.",
-   note="Trusted: Kani, CBMC, cadical. Symbolic x symbolic div_round beyond 10 bits did not finish (multiplier equivalence); a full-width symbolic divisor against constant dividends did not finish in 1200 s.",
+ "C15": dict(engine="K+S", category="model_checking",
+   technique="Kani/CBMC (SAT): div_round on i32/i64 (definition at 10 bits, reference at full width for constant divisors incl. extremes), unit API incl. MIN, generic gcd/gcdx/lcm at FF<3>, FF<5>, num-integer gcd bounded; concolic + z3: exact div_round over Z (box 10^6), generic gcd/gcdx/lcm over the symbolic integer, Gauss/Eisenstein division lemma, gcd contract, normalising units",
+   text="One harness per concrete instantiation (K); S executes the repo's generic Euclidean code over a symbolic integer and over GaussInt/EisenInt of it.",
+   note="Trusted: Kani, CBMC, cadical, z3. Symbolic x symbolic div_round beyond 10 bits did not finish in K (multiplier equivalence); Q[x], F_p[x] division not covered.",
    design="5/C15"),
+ "C16": dict(engine="K+S", category="model_checking",
+   technique="Kani/CBMC (SAT): Var/Var2/Var3 monomial orders (usize and isize exponents) are the lexicographic / graded-lex orders on exponent tuples, total, compatible with multiplication; HPoly ring operations, zero-insensitive equality, F_3[x] division; concolic + z3: Poly, LPoly, Poly2 arithmetic with symbolic coefficients vs reference term arithmetic, no stored zero coefficient, eval is a ring homomorphism, MultiDeg with symbolic exponents",
+   text="Supports (exponent templates) are enumerated, coefficients symbolic; cancellation is a branch, so vanishing sums/products are explored as classes.",
+   note="Trusted: Kani, CBMC, cadical, z3. Outside: dozens of terms, F_p coefficients, Poly3/PolyN arithmetic, Lc over non-monomial generators. Var3 multiplication compatibility only in thorough (1800 s).",
+   design="5/C16"),
  "C17": dict(engine="K", category="model_checking",
    technique="bounded model checking of the compiled Rust (Kani/CBMC, SAT): one inductive step from an arbitrary valid (val,len) state per operation vs a u128/list specification, full 64-bit width",
    text="Every public BitSeq operation is executed once from an arbitrary valid state (all 2^64 values x all 65 lengths, symbolic arguments) and compared with the list-of-bits specification; out-of-capacity/out-of-range calls must not return. The SAT solver decides each harness for all inputs; unwinding assertions on (unwind 66-68 covers the 64-step loops). One inductive step from any valid state covers operation histories of any length because validity of the result is asserted.",
    note="Trusted: Kani 0.68 MIR->goto translation, CBMC 6.11, cadical. Ord harness replaces BitSeq::weight by popcount (stub), justified by c17_weight at full width; an unstubbed twin covers len <= 12. FromStr/Display and generate(len>3) are outside (string formatting / 2^len loop). Rejection = any panic (assert or overflow check, as in both repo profiles).",
    design="5/C17"),
+ "C18": dict(engine="K", category="model_checking",
+   technique="bounded model checking of the compiled Rust (Kani/CBMC, SAT) of the per-crossing kernel: Crossing::{pass,resolve,resolved,mirror,arcs,is_resolved} with symbolic type and edges, braid Generator",
+   text="PER-CROSSING KERNEL ONLY: pass is a fixed-point-free involution matching the strand picture of each type; resolution table; mirror is an involution preserving edges and pass.",
+   note="NOT decided: components, crossing signs, writhe, circle counts, Seifert circles, braid closure - they walk the diagram through HashSet/HashMap (not executable in Kani within reach, no scalar for the concolic engine). Those routines are exercised indirectly by the Kh checks (C01/C02 compare against an independent orientation walk and circle count on catalogue diagrams).",
+   design="5/C18"),
 }
 
 def main():
